@@ -182,3 +182,129 @@ pub fn plan_colr_view(plan: &Plan) -> PlanColrView {
         colr_new_deltaset_idx_varidx_map: sorted(&plan.colr_new_deltaset_idx_varidx_map),
     }
 }
+
+/// The layout-side plan fields (`collect_layout_var_indices`): `used_mark_sets_map` (old, new),
+/// `layout_varidx_delta_map` (old variation index, new variation index) and the `back_map` of every
+/// entry of `gdef_varstore_inner_maps`.
+#[derive(Clone, Debug, Default, PartialEq, Eq)]
+pub struct PlanLayoutView {
+    pub used_mark_sets_map: Vec<(u16, u16)>,
+    pub layout_varidx_delta_map: Vec<(u32, u32)>,
+    pub gdef_varstore_inner_maps: Vec<Vec<u32>>,
+}
+
+pub fn plan_layout_view(plan: &Plan) -> PlanLayoutView {
+    let mut used_mark_sets_map: Vec<(u16, u16)> =
+        plan.used_mark_sets_map.iter().map(|(k, v)| (*k, *v)).collect();
+    used_mark_sets_map.sort();
+    let mut layout_varidx_delta_map: Vec<(u32, u32)> = plan
+        .layout_varidx_delta_map
+        .iter()
+        .map(|(k, v)| (*k, v.0))
+        .collect();
+    layout_varidx_delta_map.sort();
+    PlanLayoutView {
+        used_mark_sets_map,
+        layout_varidx_delta_map,
+        gdef_varstore_inner_maps: plan
+            .gdef_varstore_inner_maps
+            .iter()
+            .map(|m| m.keys().copied().collect())
+            .collect(),
+    }
+}
+
+/// A plan that carries nothing but what the layout common-table subsetters read:
+/// `glyphset_gsub`, `glyph_map_gsub` (old, new) and `font_num_glyphs`.
+pub fn plan_for_layout(
+    glyphset_gsub: &[u32],
+    glyph_map_gsub: &[(u32, u32)],
+    font_num_glyphs: usize,
+) -> Plan {
+    let mut plan = Plan {
+        font_num_glyphs,
+        ..Default::default()
+    };
+    for g in glyphset_gsub {
+        plan.glyphset_gsub.insert(GlyphId::new(*g));
+    }
+    for (old, new) in glyph_map_gsub {
+        plan.glyph_map_gsub
+            .insert(GlyphId::new(*old), GlyphId::new(*new));
+    }
+    plan
+}
+
+/// Outcome of one unit-level subsetter / writer call: the bytes of the single object that was
+/// serialized, or (returned error flag bits, serializer-in-error).
+pub type LayoutUnitResult<T> = Result<T, (u16, bool)>;
+
+fn layout_unit<T>(
+    f: impl FnOnce(&mut crate::serialize::Serializer) -> Result<T, crate::serialize::SerializeErrorFlags>,
+) -> LayoutUnitResult<(Vec<u8>, T)> {
+    let mut s = crate::serialize::Serializer::new(1 << 20);
+    s.start_serialize().map_err(|e| (e.bits(), true))?;
+    match f(&mut s) {
+        Ok(v) => {
+            if s.in_error() {
+                return Err((s.error().bits(), true));
+            }
+            s.end_serialize();
+            Ok((s.copy_bytes(), v))
+        }
+        Err(e) => Err((e.bits(), s.in_error())),
+    }
+}
+
+/// `CoverageTable::subset` on a stand-alone coverage table.
+pub fn subset_coverage(coverage: &[u8], plan: &Plan) -> Option<LayoutUnitResult<Vec<u8>>> {
+    use crate::SubsetTable;
+    let t = write_fonts::read::tables::layout::CoverageTable::read(FontData::new(coverage)).ok()?;
+    Some(layout_unit(|s| t.subset(plan, s, ())).map(|r| r.0))
+}
+
+/// `CoverageTable::serialize` on a plain list of new glyph ids.
+pub fn serialize_coverage(glyphs: &[u32]) -> LayoutUnitResult<Vec<u8>> {
+    use crate::Serialize;
+    layout_unit(|s| write_fonts::read::tables::layout::CoverageTable::serialize(s, glyphs)).map(|r| r.0)
+}
+
+/// `ClassDef::subset` with an explicit `ClassDefSubsetStruct`; returns the table and the class map
+/// (old class, new class) sorted by old class.
+pub fn subset_class_def(
+    class_def: &[u8],
+    plan: &Plan,
+    remap_class: bool,
+    keep_empty_table: bool,
+    use_class_zero: bool,
+    glyph_filter: Option<&[u8]>,
+) -> Option<LayoutUnitResult<(Vec<u8>, Option<Vec<(u16, u16)>>)>> {
+    use crate::SubsetTable;
+    use write_fonts::read::tables::layout::{ClassDef, CoverageTable};
+    let t = ClassDef::read(FontData::new(class_def)).ok()?;
+    let filter = match glyph_filter {
+        Some(b) => Some(CoverageTable::read(FontData::new(b)).ok()?),
+        None => None,
+    };
+    let args = crate::layout::ClassDefSubsetStruct {
+        remap_class,
+        keep_empty_table,
+        use_class_zero,
+        glyph_filter: filter.as_ref(),
+    };
+    Some(layout_unit(|s| t.subset(plan, s, &args)).map(|(bytes, map)| {
+        let map = map.map(|m| {
+            let mut v: Vec<(u16, u16)> = m.into_iter().collect();
+            v.sort();
+            v
+        });
+        (bytes, map)
+    }))
+}
+
+/// `ClassDef::serialize` on a plain (new glyph id, class) list.
+pub fn serialize_class_def(new_gid_classes: &[(u16, u16)]) -> LayoutUnitResult<Vec<u8>> {
+    use crate::Serialize;
+    layout_unit(|s| write_fonts::read::tables::layout::ClassDef::serialize(s, new_gid_classes))
+        .map(|r| r.0)
+}
